@@ -557,6 +557,94 @@ func init() {
 		return normStr(ps)
 	}
 
+	hostParseInt := I["strconv.ParseInt"]
+	I["strconv.ParseInt"] = func(fr *frame, args []value) value {
+		s, ok := args[0].(symstr)
+		if !ok {
+			return hostParseInt(fr, args)
+		}
+		needConcrete("strconv.ParseInt base/bitSize", args[1], args[2])
+		base, bits := uint64(args[1].(int)), args[2].(int)
+		if base != 8 && base != 10 && base != 16 || bits == 0 {
+			panic(pathEnd{kind: Inconclusive, msg: "strconv.ParseInt on symbolic text with unusual base"})
+		}
+		acc := Const(SBV64, 0)
+		ndig := 0
+		bad := false
+		digit := func(r *Term) *Term { // r: BV32 rune, returns BV64 digit value or nil
+			c := func(v rune) *Term { return Const(SBV32, uint64(v)) }
+			in := func(lo, hi rune) *Term { return And(Cmp(OpSle, c(lo), r), Cmp(OpSle, r, c(hi))) }
+			w := func(t *Term) *Term { return Mk(OpZExt, SBV64, t) }
+			top := rune('0' + base - 1)
+			if base > 10 {
+				top = '9'
+			}
+			if fr.branch(in('0', top)) {
+				return w(Bin(OpSub, r, c('0')))
+			}
+			if base == 16 {
+				if fr.branch(in('a', 'f')) {
+					return w(Bin(OpSub, r, c('a'-10)))
+				}
+				if fr.branch(in('A', 'F')) {
+					return w(Bin(OpSub, r, c('A'-10)))
+				}
+			}
+			return nil
+		}
+		for pi, p := range s.p {
+			switch p.k {
+			case pkBytes:
+				for bi := 0; bi < len(p.s); bi++ {
+					if pi == 0 && bi == 0 && (p.s[0] == '+' || p.s[0] == '-' || p.s[0] == '_') {
+						panic(pathEnd{kind: Inconclusive, msg: "strconv.ParseInt on signed symbolic text"})
+					}
+					d := digit(Const(SBV32, uint64(p.s[bi])))
+					if d == nil {
+						bad = true
+						break
+					}
+					acc = Bin(OpAdd, Bin(OpMul, acc, Const(SBV64, base)), d)
+					ndig++
+				}
+			case pkRune:
+				if p.n != 1 {
+					bad = true
+					break
+				}
+				if pi == 0 {
+					if fr.branch(Or(Eq(p.t, Const(SBV32, '+')), Eq(p.t, Const(SBV32, '-')))) {
+						panic(pathEnd{kind: Inconclusive, msg: "strconv.ParseInt on signed symbolic text"})
+					}
+				}
+				d := digit(p.t)
+				if d == nil {
+					bad = true
+					break
+				}
+				acc = Bin(OpAdd, Bin(OpMul, acc, Const(SBV64, base)), d)
+				ndig++
+			default:
+				panic(pathEnd{kind: Inconclusive, msg: "strconv.ParseInt on formatted pieces"})
+			}
+			if bad {
+				break
+			}
+		}
+		if bad || ndig == 0 {
+			return tuple{int64(0), makeError(fr.i, "strconv.ParseInt: invalid syntax")}
+		}
+		maxDigits := map[uint64]int{8: 20, 10: 18, 16: 15}[base]
+		if ndig > maxDigits {
+			panic(pathEnd{kind: Inconclusive, msg: "strconv.ParseInt on symbolic text too long for exact 64-bit model"})
+		}
+		limit := uint64(1)<<(uint(bits)-1) - 1
+		if fr.branch(Cmp(OpUlt, Const(SBV64, limit), acc)) {
+			return tuple{int64(limit), makeError(fr.i, "strconv.ParseInt: value out of range")}
+		}
+		return tuple{mkval(acc, types.Int64), iface{}}
+	}
+
 	I["sort.Strings"] = func(fr *frame, args []value) value {
 		sl := args[0].([]value)
 		ss := make([]string, len(sl))
@@ -682,11 +770,11 @@ func RegisterAPI(apiPkg string) {
 			}
 			// continue under the assertion
 			if v, ok := i.evalModel(c.t); ok && v == 1 {
-				i.pc = append(i.pc, c.t)
+				i.addPC(c.t)
 			} else {
 				switch i.check(c.t) {
 				case Sat:
-					i.pc = append(i.pc, c.t)
+					i.addPC(c.t)
 					i.setModel(i.fetchModel())
 				case Unsat:
 					panic(pathEnd{kind: OK, msg: "assertion false on every continuation"})
@@ -716,6 +804,21 @@ func RegisterAPI(apiPkg string) {
 	}
 	O[p+"VerifInconclusive"] = func(fr *frame, args []value) value {
 		panic(pathEnd{kind: Inconclusive, msg: strArg(args[0], "Inconclusive msg")})
+	}
+	boolTerm := func(v value) *Term {
+		if b, ok := v.(bool); ok {
+			return BoolT(b)
+		}
+		return v.(sym).t
+	}
+	O[p+"VerifAnd"] = func(fr *frame, args []value) value {
+		return mkval(And(boolTerm(args[0]), boolTerm(args[1])), types.Bool)
+	}
+	O[p+"VerifOr"] = func(fr *frame, args []value) value {
+		return mkval(Or(boolTerm(args[0]), boolTerm(args[1])), types.Bool)
+	}
+	O[p+"VerifImplies"] = func(fr *frame, args []value) value {
+		return mkval(Or(Not(boolTerm(args[0])), boolTerm(args[1])), types.Bool)
 	}
 	O[p+"VerifParam"] = func(fr *frame, args []value) value {
 		if v, ok := fr.i.run.cfg.Params[strArg(args[0], "Param name")]; ok {
